@@ -1,6 +1,8 @@
 package main
 
 import (
+	"sync"
+	"strings"
 	"fmt"
 	"time"
 
@@ -110,6 +112,63 @@ func genSessionOps(rng *RNG, c nwCfg, n int, nkeys int, farFuture bool) []wop {
 	return ops
 }
 
+// sessionRace: real concurrency between the ingest goroutine and the expiry step (the stepping hooks
+// are called from two goroutines). With many open sessions the expiry scan takes a while; a row of a
+// key that is being expired arrives meanwhile. Whatever the interleaving, a session may only be
+// delivered by the expiry step of a watermark >= its end. Line: C10 R <attempt> (wmk end)*
+func sessionRace(o *Out, attempts int) error {
+	for a := 0; a < attempts; a++ {
+		w, err := newSession(nwCfg{timeout: int64(2 * time.Second), ooo: 0, late: 0})
+		if err != nil {
+			return err
+		}
+		var mu sync.Mutex
+		curW := int64(-1)
+		var pairs []string
+		w.SetCallback(func(rows []types.Row) {
+			if len(rows) == 0 || rows[0].Slot == nil {
+				return
+			}
+			mu.Lock()
+			pairs = append(pairs, fmt.Sprintf("%d %d", curW, rows[0].Slot.End.UnixNano()))
+			mu.Unlock()
+		})
+		t0 := int64(1000 * time.Second)
+		w.Add(map[string]any{"id": int64(1), "ts": t0, "k": "T"})
+		nfill := 30000
+		for i := 0; i < nfill; i++ {
+			w.Add(map[string]any{"id": int64(10 + i), "ts": t0, "k": fmt.Sprintf("f%d", i)})
+		}
+		for w.VerifDeliverOne(nil) {
+		}
+		w.Add(map[string]any{"id": int64(2), "ts": t0 + int64(20*time.Second), "k": "W"})
+		done := make(chan struct{})
+		go func() {
+			w.VerifDeliverOne(func(wmk int64) { mu.Lock(); curW = wmk; mu.Unlock() })
+			close(done)
+		}()
+		time.Sleep(time.Duration(a*300) * time.Microsecond)
+		w.Add(map[string]any{"id": int64(3), "ts": t0 + int64(25*time.Second), "k": "T"})
+		<-done
+		w.VerifDrain()
+		w.Stop()
+		mu.Lock()
+		// only the sessions of key T and W matter for the verdict; keep the line short
+		var keep []string
+		for _, p := range pairs {
+			var wm, e int64
+			fmt.Sscanf(p, "%d %d", &wm, &e)
+			if e != t0+int64(2*time.Second) || len(keep) < 2 {
+				keep = append(keep, p)
+			}
+		}
+		mu.Unlock()
+		o.Line("C10 R %d %s", a, strings.Join(keep, " "))
+		o.Count("concurrent expiry vs ingest")
+	}
+	return nil
+}
+
 func runC10(tier string, seed uint64, o *Out) error {
 	rng := NewRNG(seed ^ 0xC10)
 	ncases := 1500
@@ -144,6 +203,13 @@ func runC10(tier string, seed uint64, o *Out) error {
 		if err := sessionLine(o, "C10", c, ops, fmt.Sprintf("timeout=%d", c.timeout)); err != nil {
 			return err
 		}
+	}
+	nrace := 6
+	if tier == "thorough" {
+		nrace = 30
+	}
+	if err := sessionRace(o, nrace); err != nil {
+		return err
 	}
 	return nil
 }
